@@ -244,8 +244,11 @@ class Worker(multiprocessing.Process):
 
 
     def remove_pending_answer(self, p_answer):
-        p_answer.notify()
+        #: The entry is withdrawn before the caller is woken up: once awake 
+        #: it may send the same request again (a retransmission registers 
+        #: under the same Hop-by-Hop), and that entry must not be removed.
         self.pending_answers.pop(p_answer.msg.header.hop_by_hop, None)
+        p_answer.notify()
 
 
     def is_send_queue_empty(self):
